@@ -392,3 +392,54 @@ func ruleC04R4(c *Ctx) {
 	}
 	c.check(!short, "C04.R4", fn, "a short read is not returned as success", fn.Pos(), "the returned buffer is never truncated to the count read", "ReadFileAt truncates the buffer to a short count and returns it with a nil error: a partial chunk would be forwarded")
 }
+
+// ---- C04.R7 (added after seed c04g): nothing but the end of the buffer takes the queue directory away. A damaged file
+// found at start must not block the recovery of the other chunks: every operation of the chunk operator works through the
+// directory handle opened by its constructor, so the handle is stored only there, and the operator is closed only by the
+// chunk manager's Close (which the feeder calls after its consumers have ended). A "give the directory up after N errors"
+// switch turns LoadChunk / RemoveChunk off for every intact chunk behind the damaged ones.
+func init() {
+	register("C04", "C04.R7", ruleC04R7)
+	register("C03", "C04.R7", ruleC04R7)
+}
+
+func ruleC04R7(c *Ctx) {
+	const fDir = "buffer/hybridbuffer.chunkOperator.maybeDir"
+	const aNewOp = "buffer/hybridbuffer.newChunkOperator"
+	const aOpClose = "buffer/hybridbuffer.(*chunkOperator).Close"
+	const aManClose = "buffer/hybridbuffer.(*chunkManager).Close"
+	n := 0
+	for _, fn := range c.P.universe {
+		for _, st := range storesToField(fn, fDir) {
+			n++
+			c.check(ownedBy(fn, aNewOp), "C04.R7", fn, "store to chunkOperator.maybeDir", st.Pos(),
+				"the queue directory handle is set by the constructor only", "the queue directory handle is replaced or cleared after construction: every later LoadChunk / RemoveChunk / UnloadChunk — also for intact chunks — works on the new value")
+		}
+	}
+	c.floor("C04.R7", "stores to chunkOperator.maybeDir", n, 1)
+	c.P.Fn(aOpClose) // the anchor must resolve
+	k := 0
+	for _, s := range c.callSitesOf(anchorPred(aOpClose)) {
+		k++
+		fn := s.Parent()
+		// an operator the calling function made for itself (the listing of queue directories at start) is its own to close
+		own := len(s.Common().Args) > 0 && mentions(s.Common().Args[0], func(v ssa.Value) bool {
+			cl, ok := v.(*ssa.Call)
+			return ok && cl.Common().StaticCallee() != nil && isAnchor(cl.Common().StaticCallee(), aNewOp) && cl.Parent() == fn
+		})
+		if !own {
+			if al, ok := resolve(s.Common().Args[0]).(*ssa.Alloc); ok {
+				if sv, ok := singleStore(al); ok {
+					own = mentions(sv, func(v ssa.Value) bool {
+						cl, ok := v.(*ssa.Call)
+						return ok && cl.Common().StaticCallee() != nil && isAnchor(cl.Common().StaticCallee(), aNewOp) && cl.Parent() == fn
+					})
+				}
+			}
+		}
+		c.check(own || ownedBy(fn, aManClose), "C04.R7", fn, "call of (*chunkOperator).Close", s.Pos(),
+			"the operator is closed by the chunk manager's Close, or by the function that made it for its own use",
+			"the chunk operator of a live buffer is closed outside chunkManager.Close: its directory handle is gone for every later load / remove")
+	}
+	c.floor("C04.R7", "chunkOperator.Close sites", k, 1)
+}
